@@ -179,6 +179,27 @@ def run(case):
                     F.append(Finding("oracle", "transform_row_local", cc + "|field-" + what, f"field {i} transformed {what} differs from the joint transform by rel {relerr(v, fulls[i]):.2e}"))
         except Exception as e:  # noqa: BLE001
             F.append(Finding("oracle", "transform_labels", cc + "|field-separately|raises", f"{type(e).__name__}: {str(e)[:160]}"))
+    # list input: the elements of the NEW data are paired by sample LABEL — an element that stores the same samples in another order
+    # is the same data, so every sample's scores stay the same ("each sample's scores depend only on that sample")
+    if case["struct"] == "LIST" and n_new >= 2 and case["coords"] != "repeated":
+        def rev_tail(o):
+            return [o[0]] + [a.isel(time=slice(None, None, -1)) for a in o[1:]] if isinstance(o, list) else o
+        new_r = tuple(rev_tail(o) for o in new) if isinstance(new, tuple) else rev_tail(new)
+        if any(isinstance(o, list) for o in (new if isinstance(new, tuple) else (new,))):
+            try:
+                tr = zoo.transform(cls, m, new_r, **kw)
+                for i, t in enumerate(tr):
+                    checks += 1
+                    v, tl = as_time_mode(t, mi)
+                    if sorted(tl.tolist()) != sorted(want_t.tolist()):
+                        F.append(Finding("oracle", "transform_labels", cc + "|element-in-other-sample-order", f"field {i}: labels {tl[:5]}... for new data labelled {want_t[:5]}..."))
+                        continue
+                    pos = [int(np.nonzero(tl == x)[0][0]) for x in want_t]
+                    e = relerr(v[pos], fulls[i])
+                    if e > 1e-9:
+                        F.append(Finding("oracle", "transform_row_local", cc + "|element-in-other-sample-order", f"field {i}: scores at the same labels differ by rel {e:.2e} when a list element stores its samples in reverse order"))
+            except Exception as e:  # noqa: BLE001
+                F.append(Finding("oracle", "transform_labels", cc + "|element-in-other-sample-order|raises", f"{type(e).__name__}: {str(e)[:160]}"))
     # concat property: transform(A ++ B) == transform(A) ++ transform(B), for splits of the new data
     if n_new >= 2:
         splits = list(range(1, n_new)) if case.get("all_splits") else sorted(set(int(x) for x in rng.integers(1, n_new, size=3)))
